@@ -28,6 +28,7 @@ import (
 	"verif/refcodec"
 	"verif/shim/vctx"
 	"verif/shim/vrand"
+	"verif/shim/vtime"
 	"verif/simnet"
 	"verif/vsched"
 )
@@ -156,10 +157,14 @@ type Scn struct {
 	EpsNs      int64              `json:"eps_ns,omitempty"`
 	NoOwnLoop  bool               `json:"no_own_loop,omitempty"`
 	// SilentElsewhere: a probe whose TTL has no entry in Hops is not answered either (a TTL the run was never asked to probe)
-	SilentElsewhere bool   `json:"silent_elsewhere,omitempty"`
-	MaxSteps        int    `json:"max_steps,omitempty"`       // scheduler step horizon (0 = default 200000)
-	TargetOverride  string `json:"target_override,omitempty"` // probe another address than the variant's default
-	ShareListener   int    `json:"share_listener,omitempty"`  // SACK: 1+index of the scenario whose listener (same address and port) this one connects to
+	SilentElsewhere bool `json:"silent_elsewhere,omitempty"`
+	// WallStepSec / WallStepAtMs: the wall clock is stepped by that many seconds at that virtual instant (NTP step, resumed
+	// VM); the monotonic clock is not. Elapsed times measured across the step are unaffected.
+	WallStepSec    int    `json:"wall_step_sec,omitempty"`
+	WallStepAtMs   int    `json:"wall_step_at_ms,omitempty"`
+	MaxSteps       int    `json:"max_steps,omitempty"`       // scheduler step horizon (0 = default 200000)
+	TargetOverride string `json:"target_override,omitempty"` // probe another address than the variant's default
+	ShareListener  int    `json:"share_listener,omitempty"`  // SACK: 1+index of the scenario whose listener (same address and port) this one connects to
 	// Then: scenarios run one after the other in the same thread after this one (non-initial states, stale traffic)
 	Then []Scn `json:"then,omitempty"`
 	done bool
@@ -709,6 +714,7 @@ func Prepare(script *Script, scns ...*Scn) *simnet.Net {
 	if sc0.EpsNs > 0 {
 		n.EpsNs = sc0.EpsNs
 	}
+	vtime.WallStepAtNs, vtime.WallStepSec = int64(sc0.WallStepAtMs)*1_000_000, int64(sc0.WallStepSec)
 	return n
 }
 
@@ -877,7 +883,15 @@ func RunScns(cfg vsched.Config, top ...*Scn) *Result {
 			} else if sc.ShareListener > 0 && listenerOf[sc.ShareListener-1] != nil {
 				listenerOf[sc.ShareListener-1].NotYet = false
 			}
-			r, err := RunVariant(ctx, sc, ports[i])
+			var r *result.TracerouteRun
+			var err error
+			if k := Info(sc.Variant).Kind; sc.CancelAtMs > 0 && (k == "udp4" || k == "udp6" || k == "tcp" || k == "tcpparis") {
+				// these entry points take no context and start their engine on context.Background(): the caller's context
+				// stands in for it (vctx.WithRoot), so that the engine run over the REAL driver is the one that is cancelled
+				vctx.WithRoot(ctx, func() { r, err = RunVariant(ctx, sc, ports[i]) })
+			} else {
+				r, err = RunVariant(ctx, sc, ports[i])
+			}
 			o := res.Obs[i]
 			o.Run, o.Err, o.Done, o.EndNs = r, err, true, vsched.Now()
 			if len(chains) == 1 {
